@@ -402,12 +402,16 @@ def collect_identity_encoders(crates):
         for b in c.bodies.values():
             r = b.raw
             if r.get("impl_trait") == ENC and r.get("name") == "encode" and r["defkind"] == "AssocFn":
-                calls = list(b.calls())
-                if len(calls) == 1 and callee(calls[0][1]) == "core::clone::Clone::clone" and \
+                plumbing = ("core::ops::deref::Deref::deref", "core::convert::AsRef::as_ref", "alloc::vec::Vec::<T, A>::as_slice")
+                calls = [c_ for c_ in b.calls() if callee(c_[1]) not in plumbing]
+                # (`clone()`, `to_vec()`, `to_owned()`, `Vec::from(..)` of the whole input are the same copy)
+                if len(calls) == 1 and callee(calls[0][1]) in ("core::clone::Clone::clone", "alloc::slice::<impl [T]>::to_vec",
+                                                             "alloc::borrow::ToOwned::to_owned", "core::convert::From::from",
+                                                             "core::convert::Into::into") and \
                         calls[0][1]["dest"]["l"] == 0:
                     tr = Tracer(b)
-                    a = tr.value(calls[0][1]["args"][0])
-                    if (a.kind == "place" and a.place.l == 1) or (a.kind == "ref" and a.place.l == 1):
+                    srcs = tr.sources(calls[0][1]["args"][0], through_calls=lambda n_, t_: n_ in plumbing)
+                    if srcs and all(s_[0] == "arg" and s_[1] == 1 for s_ in srcs):
                         IDENTITY_ENCODERS.add(b.id)
 
 
